@@ -14,6 +14,10 @@
 (*  * RandomCalls = FALSE, BFS: after a fixed prefix (bucket, object) ALL  *)
 (*    programs of FreeOps calls and ALL their interleavings with the       *)
 (*    worker, down to quiescence (the race schedules).                     *)
+(* In the walks the worker is paused / resumed at generated points (queued  *)
+(* entries pile up, calls really wait) and up to MaxFailPolls polls of a    *)
+(* drain wait are scheduled while the wait is NOT over (the real call must  *)
+(* then sleep and poll again - this exposes a wait that ends too early).    *)
 (* Only complete schedules are emitted (every call returned, queue empty,  *)
 (* worker idle).  Calls whose queue entry could never be replayed          *)
 (* (CreateBucket of an existing bucket, DeleteBucket of a non-empty one,   *)
